@@ -1817,7 +1817,7 @@ def dask_groupby_agg(
     array, by = _unify_chunks(array, by)
 
     # tokenize here since by has already been hashed if its numpy
-    token = dask.base.tokenize(array, by, agg, expected_groups, axis, method)
+    token = dask.base.tokenize(array, by, agg, expected_groups, axis, method, reindex, fill_value, engine, sort)
 
     # preprocess the array:
     #   - for argreductions, this zips the index together with the array block
